@@ -304,7 +304,7 @@ def run_insolve(case, rec):
         pr.u0 = old_u0
     val = ValidationLoss(loss=vloss, validation_data=vdata, validation_param_data=vparam, validation_obs_data=vobs,
                          call_every=P, early_stopping=en, patience=pat)
-    opt = optax.sgd(0.02)  # large enough for the validation loss to go up and down without diverging
+    opt = optax.sgd(5e-3)
     n = 9
     out = guard.call(jinns.solve, n_iter=n, init_params=Pb["params"], data=Pb["data"], loss=Pb["loss"], optimizer=opt,
                      param_data=Pb["param_data"], obs_data=Pb["obs_data"], validation=val, verbose=False)
@@ -320,8 +320,11 @@ def run_insolve(case, rec):
     sig = "builtin/in-solve"
     rec.nontrivial((P, pat, en, case["aux"], case["seed"]))
     rec.set_sample(P=P, patience=pat, enabled=en, aux=case["aux"], crit=c, expected=ref["crit"], stopped_after=nd)
-    if not en and nd != n:
-        rec.inconcl("reference stopped with early stopping disabled")
+    diverged = refloop.has_nan(ref["final_params"])
+    if diverged:
+        rec.count("runs_ended_by_nan")  # legitimate stop (C18); the comparison below still applies
+    if not en and nd != n and not diverged:
+        rec.inconcl("reference stopped with early stopping disabled and without NaN")
         return
     if not np.allclose(c[:nd], ref["crit"][:nd], rtol=1e-6, atol=1e-9, equal_nan=True):
         rec.violation(sig + "/criterion-history", "%s: criterion history %s vs reference %s" % (label, c[:nd], ref["crit"][:nd]))
